@@ -110,6 +110,65 @@ func c11Intervals(ts uint32, sps []syncPoint, trak *mp4.TrakBox) (res string) {
 	return "ok:" + strings.Join(parts, ",")
 }
 
+// c11Warm asks the lookup helpers of a sample table about its first, middle and last sample, leaving any lookup
+// cursor / cache of the boxes at the END of the tables (hidden state between calls: the functions under test must
+// answer the same on boxes that have been queried before as on fresh ones). Tables may be incomplete: panics are dropped.
+func c11Warm(s *mp4.StblBox) {
+	try := func(f func()) {
+		defer func() { _ = recover() }()
+		f()
+	}
+	if s == nil || s.Stsz == nil {
+		return
+	}
+	n := s.Stsz.GetNrSamples()
+	for _, k := range []uint32{1, n/2 + 1, n} {
+		if k < 1 || k > n {
+			continue
+		}
+		k := k
+		try(func() { _, _ = s.Stts.GetDecodeTime(k) })
+		try(func() { _ = s.Stts.GetDur(k) })
+		try(func() {
+			cn, _, err := s.Stsc.ChunkNrFromSampleNr(int(k))
+			if err == nil {
+				_ = s.Stsc.GetChunk(uint32(cn))
+			}
+		})
+		try(func() { _, _ = s.Stsc.GetContainingChunks(k, k) })
+		try(func() { _ = s.Ctts.GetCompositionTimeOffset(k) })
+		try(func() { _ = s.Stss.IsSyncSample(k) })
+		try(func() { _ = s.Stsz.GetSampleSize(int(k)) })
+	}
+	try(func() {
+		var total uint64
+		for i := range s.Stts.SampleCount {
+			total += uint64(s.Stts.SampleCount[i]) * uint64(s.Stts.SampleTimeDelta[i])
+		}
+		if total > 0 {
+			_, _ = s.Stts.GetSampleNrAtTime(total - 1)
+		}
+	})
+}
+
+// c11CaseNr counts the cases: every second one runs on warmed boxes.
+var c11CaseNr int
+
+func c11SpString(ts uint32, sps []syncPoint, panicked bool) string {
+	if panicked {
+		return "panic"
+	}
+	sp := make([]string, len(sps))
+	for i, p := range sps {
+		sp[i] = fmt.Sprintf("%d/%d/%d", p.sampleNr, p.decodeTime, p.presTime)
+	}
+	spStr := "-"
+	if len(sp) > 0 {
+		spStr = strings.Join(sp, ",")
+	}
+	return fmt.Sprintf("ok:%d:%s", ts, spStr)
+}
+
 func TestVerifDriver(t *testing.T) {
 	inPath, outPath := os.Getenv("C11_CASES"), os.Getenv("C11_OUT")
 	if inPath == "" || outPath == "" {
@@ -154,6 +213,13 @@ func TestVerifDriver(t *testing.T) {
 		for _, ts := range strings.Split(f[3], ";") {
 			file.Moov.Traks = append(file.Moov.Traks, c11ParseTrack(ts))
 		}
+		if c11CaseNr++; c11CaseNr%2 == 1 {
+			for _, trak := range file.Moov.Traks {
+				if trak.Mdia != nil && trak.Mdia.Minf != nil {
+					c11Warm(trak.Mdia.Minf.Stbl)
+				}
+			}
+		}
 		ts, sps, panicked := c11Starts(file, uint32(d))
 		if panicked {
 			fmt.Fprintf(w, "%s\tpanic\t-\n", line)
@@ -170,6 +236,16 @@ func TestVerifDriver(t *testing.T) {
 		ivs := make([]string, len(file.Moov.Traks))
 		for i, trak := range file.Moov.Traks {
 			ivs[i] = c11Intervals(ts, sps, trak)
+		}
+		// hidden state: asked a second time on the same boxes (after the interval queries), the answers are the same
+		ts2, sps2, p2 := c11Starts(file, uint32(d))
+		ivs2 := make([]string, len(file.Moov.Traks))
+		for i, trak := range file.Moov.Traks {
+			ivs2[i] = c11Intervals(ts, sps, trak)
+		}
+		if first, second := c11SpString(ts, sps, false), c11SpString(ts2, sps2, p2); first != second || strings.Join(ivs, ";") != strings.Join(ivs2, ";") {
+			fmt.Fprintf(w, "%s\thidden-state:%s:second-call:%s\t%s:second-call:%s\n", line, first, second, strings.Join(ivs, ";"), strings.Join(ivs2, ";"))
+			continue
 		}
 		fmt.Fprintf(w, "%s\tok:%d:%s\t%s\n", line, ts, spStr, strings.Join(ivs, ";"))
 	}
